@@ -24,6 +24,10 @@ fn go15(op: &str, args: &[Arg]) -> Option<String> {
     let mkf = |sh: &Vec<usize>, es: &Vec<i128>| Array::new(es.iter().map(|&x| x as f64).collect(), sh.clone()).ok();
     Some(match (op, args) {
         ("solve", [Arg::A(s1, e1), Arg::A(s2, e2)]) => rf(&mkf(s1, e1)?.solve(&mkf(s2, e2)?)),
+        ("solve", [Arg::A(s1, e1), Arg::A(s2, e2), Arg::Z(sc)]) => {
+            let a = Array::new(e1.iter().map(|&x| x as f64 / *sc as f64).collect(), s1.clone()).ok()?;
+            rf(&a.solve(&mkf(s2, e2)?))
+        }
         ("det", [Arg::A(s1, e1)]) => rf(&mkf(s1, e1)?.det()),
         ("qr", [Arg::A(s1, e1)]) => match mkf(s1, e1)?.qr() {
             Ok(v) => format!("list({})", v.iter().map(|(q, r)| format!("{};{}", fbits(q), fbits(r))).collect::<Vec<_>>().join(";")),
